@@ -1,4 +1,5 @@
 import DiscretModel.Model.Sync
+import DiscretModel.Lemmas.SyncBatches
 /-
 C11: with ingestion consulting the deletion log (and a deletion record removing every version of its row),
 a row that carries a deletion record is never stored again — under every local write and every pull.
@@ -218,10 +219,9 @@ variable {d : Defects} (hI : d.ingestIgnoresTombstones = false) (hR : d.syncDele
 include hR in
 theorem applyNTombs_noZombie (rights : Rights) {dst : Replica} (h : NoZombie dst) (ts : List NTomb) :
     NoZombie (applyNTombs d rights dst ts) ∧ ∀ i ∈ dst.deadIds, i ∈ (applyNTombs d rights dst ts).deadIds := by
-  unfold applyNTombs
-  refine foldl_preserves (fun r : Replica => NoZombie r ∧ ∀ i ∈ dst.deadIds, i ∈ r.deadIds) _ _ _
+  refine applyNTombs_induct d rights ts (fun r : Replica => NoZombie r ∧ ∀ i ∈ dst.deadIds, i ∈ r.deadIds) dst
     ⟨h, fun i hi => hi⟩ ?_
-  intro r t ⟨hz, hm⟩
+  intro r t _ ⟨hz, hm⟩
   unfold applyNTomb
   simp only
   constructor
